@@ -109,7 +109,7 @@ def run(ctx):
         run_driver_checked(ctx, exe_a, [scr, ctx.path(drv + "_asan.ndjson")], what=drv + "(asan)", replay_src=scr, timeout=1800)
         if not os.path.exists(tr) or os.path.getsize(tr) == 0:
             continue
-        lines_t = open(tr).read().split("\n")
+        lines_t = read_text(tr).split("\n")
         ctx.sample({"recorded_trace_" + drv: [json.loads(x) for x in lines_t[1:4]]})
 
         def classify(ex, at, drv=drv):
